@@ -478,6 +478,19 @@ func runEngProp(prop string) runner {
 		var cases []string
 		var index []interface{}
 		distinct := map[string]bool{}
+		for _, rg := range regressionScenarios(prop) {
+			obs, err := runEngScenario(rg.S, true)
+			if err != nil {
+				return err
+			}
+			rep.Evaluations++
+			rep.count("regression scenarios")
+			if obs.OracleMsg != "" {
+				rep.failKey(rg.Key, obs.OracleMsg, engCaseRec{rg.S, obs})
+			}
+			index = append(index, engCaseRec{rg.S, obs})
+			cases = append(cases, rg.S.gallinaCase(len(index)-1, obs))
+		}
 		for i := 0; i < n; i++ {
 			s := genEng(p.fork(), prop)
 			obs, err := runEngScenario(s, true)
